@@ -15,7 +15,7 @@ LEVEL = 'fault_enumeration'
 RULE = ("For each generated (explainer in {IncrementalPFI, IncrementalSage, BatchSage normal/original, IntervalSage}, small config, "
         "stream of 2..6 observations, seeds) a fault-free dry run counts the callback invocations K_t of every explain_one call t "
         "(model, loss, imputer-before-delegation, imputer-after, storage); then for EVERY (t, k <= K_t) the stream is replayed "
-        "deterministically from scratch with the k-th callback of call t raising (the exception class cycles with the position through a custom Exception, StopIteration, KeyError, ZeroDivisionError, ValueError, AttributeError, IndexError); plus pairs of faults on consecutive calls (quick: a "
+        "deterministically from scratch with the k-th callback of call t raising (the exception class cycles with the position through a custom Exception, StopIteration, KeyError, ZeroDivisionError, ValueError, AttributeError, IndexError, and the BaseExceptions KeyboardInterrupt and GeneratorExit); plus pairs of faults on consecutive calls (quick: a "
         "sample, thorough: all). Oracle: the same exception object propagates out of explain_one; importance values, variances, "
         "marginal loss, model loss, marginal prediction (exact rationals) equal their values before the call; after catching and "
         "continuing the stream the independent exact reference restricted to the successful calls still agrees after every call "
@@ -130,11 +130,13 @@ class Run:
             other = None
             try:
                 self.ex.explain_one(x, y, **kw)
-            except Exception as e:       # noqa: BLE001 - the injected fault comes in several exception classes
+            except BaseException as e:       # noqa: BLE001 - the injected fault comes in several classes, also KeyboardInterrupt
                 if is_injected(e) and e is self.faults.raised:
                     raised = e
-                else:
+                elif isinstance(e, Exception):
                     other = e
+                else:
+                    raise                    # a real KeyboardInterrupt / SystemExit
             if other is not None:
                 kind = self.faults.kinds[-1] if self.faults.kinds else 'none'
                 if self.faults.raised is not None:
